@@ -37,8 +37,8 @@ def oblige_equal(run, name, a, b, kind="post", cls="input", props=None, meta=Non
     """Emit obligations stating a == b for scalars / arrays (shape, then elements at fresh
     in-range index components; masked axes only where the mask is True)."""
     from . import opaque
-    if isinstance(a, (list, dict, tuple, values.SList, values.SDict, opaque.Op, opaque.Cond)) or \
-            isinstance(b, (list, dict, tuple, values.SList, values.SDict, opaque.Op, opaque.Cond)):
+    if isinstance(a, (list, dict, tuple, values.SList, values.SDict, values.BList, opaque.Op, opaque.Cond)) or \
+            isinstance(b, (list, dict, tuple, values.SList, values.SDict, values.BList, opaque.Op, opaque.Cond)):
         run.oblige(name, opaque.veq(a, b), kind=kind, cls=cls, props=props, meta=meta, replay=replay,
                    assuming=assuming)
         return
